@@ -21,10 +21,19 @@ var verifDetRot int
 // verifDetAlone >= 0: the batch-mixed fixture yields only that one resource (rendered alone)
 var verifDetAlone = -1
 
+// verifDetDup: every endpoint list names one address twice (two EndpointSlice entries can resolve to the same ip:port)
+var verifDetDup bool
+
 func verifDetEndpoints(n int) []string {
 	var out []string
 	for i := 0; i < n; i++ {
 		out = append(out, fmt.Sprintf("10.3.0.%d:80", (i+verifDetRot)%n+1))
+	}
+	if verifDetDup && n >= 2 {
+		// always the same address (the multiset must not depend on the rotation); where it lands in the list does
+		dup := "10.3.0.2:80"
+		at := verifDetRot % (len(out) + 1)
+		out = append(out[:at], append([]string{dup}, out[at:]...)...)
 	}
 	return out
 }
@@ -212,6 +221,8 @@ func VerifDet(kv map[string]string) string {
 	reps, _ := strconv.Atoi(kv["reps"])
 	seen := map[string]map[string]bool{}
 	changed2 := 0
+	verifDetDup = kv["dup"] == "1"
+	defer func() { verifDetDup = false }()
 	for i := 0; i < reps; i++ {
 		verifDetRot = i
 		cnf, rm, err := VerifNewRecConfigurator(plus, false, true)
@@ -219,7 +230,8 @@ func VerifDet(kv map[string]string) string {
 			return "setup-error"
 		}
 		cnf.EnableReloads()
-		if _, err := cnf.AddOrUpdateResources(verifDetFixture(kv["fx"], n, plus), false); err != nil {
+		first := verifDetFixture(kv["fx"], n, plus)
+		if _, err := cnf.AddOrUpdateResources(first, false); err != nil {
 			return "render-error:" + strings.ReplaceAll(err.Error(), " ", "_")
 		}
 		for f, c := range rm.Files {
@@ -229,6 +241,17 @@ func VerifDet(kv map[string]string) string {
 			seen[f][c] = true
 		}
 		rm.VerifTake()
+		// the very same extended resources once more (the Configurator keeps them and renders them again on ConfigMap,
+		// GlobalConfiguration and endpoints updates): a generator that rewrites its input shows here
+		if _, err := cnf.AddOrUpdateResources(first, false); err != nil {
+			return "render-error"
+		}
+		for _, e := range rm.VerifTake() {
+			if strings.HasPrefix(e, "W|") && strings.HasSuffix(e, "|1") {
+				changed2++
+			}
+		}
+		// ... and freshly built equal ones
 		if _, err := cnf.AddOrUpdateResources(verifDetFixture(kv["fx"], n, plus), false); err != nil {
 			return "render-error"
 		}
